@@ -194,6 +194,13 @@ func ticketN(i int) []byte {
 	t := baseTicket()
 	t.Realm = fmt.Sprintf("REALM%d.EXAMPLE", i)
 	t.Enc.Cipher = bytes.Repeat([]byte{byte(i + 1)}, 20+100*i)
+	// consecutive tickets differ in which optional fields they carry, so that state carried over from one decoded
+	// ticket to the next shows up in the re-encoding
+	if i%2 == 1 {
+		t.Enc.KVNO = nil
+	} else {
+		t.Enc.KVNO = krbmsg.I64(int64(3 + i))
+	}
 	return t.Encode()
 }
 
